@@ -319,6 +319,11 @@ func parallel(jobs []func() wl.Ev) []wl.Ev {
 		go func() {
 			defer wg.Done()
 			for i := range ch {
+				if atomic.LoadInt32(&hangs) >= 24 {
+					// the tree hangs on many inputs: two dozen witnesses are enough, the rest of this file's cases is not run
+					out[i] = wl.Ev{"ev": "Skipped"}
+					continue
+				}
 				out[i] = jobs[i]()
 			}
 		}()
